@@ -11,4 +11,5 @@ import SwcVerif.Model.AlgoRunLMeasure
 import SwcVerif.Model.AlgoRunNodeBranch
 import SwcVerif.Model.AlgoRunMst
 import SwcVerif.Model.AlgoRunParse
+import SwcVerif.Model.AlgoRunCut
 /-! all runners of generated definitions (imported by the root module only; the driver imports them one by one) -/
